@@ -782,7 +782,7 @@ def ts5(ctx, pid):
 
 
 # ---------------------------------------------------------------------------
-@rule("ROUTE1", ["C01", "C02"])
+@rule("ROUTE1", ["C01", "C02", "C05", "C06"])
 def route1(ctx, pid):
     """set(k, b'') takes the delete path; dict syntax / exists are the method semantics (SIB1);
     a value slot is returned only when the key is fully consumed (ABS3)."""
